@@ -433,8 +433,8 @@ func (a *Allocator) validateRealloc(req *Request, nodes NodeMask, types TypeMask
 		return nodes, types, true, nil
 	}
 
-	if (req.affinity & a.masks.nodes.all) != req.affinity {
-		unknown := req.affinity &^ a.masks.nodes.all
+	if (nodes & a.masks.nodes.all) != nodes {
+		unknown := nodes &^ a.masks.nodes.all
 		return 0, 0, false, fmt.Errorf("%w: unknown nodes requested (%s)", ErrInvalidNode, unknown)
 	}
 
